@@ -52,7 +52,7 @@ def search(chk, n):
         d = rng.choice([2, 2, 3])
         d2 = d * d
         N = rng.randint(1, 4)
-        nenv = rng.choice([1, 2, 2, 3])
+        nenv = rng.choice([1, 2, 2, 3, 0]) if it != 5 else 0        # it == 5: no environment at all (every run)
         commuting = rng.random() < 0.5 and it != 3
         pts = []
         for j_ in range(nenv):
@@ -87,7 +87,7 @@ def search(chk, n):
         # first; every third case one of them has already been used and one of its tensors was replaced afterwards
         built = [p.build() for p in pts]
         history = []
-        if it % 3 == 2 and N >= 1:
+        if it % 3 == 2 and N >= 1 and pts:
             j_ = rng.randrange(len(pts))
             k_ = rng.randrange(N)
             final_tensor = pts[j_].mpos[k_]
@@ -101,7 +101,7 @@ def search(chk, n):
                 look_at(b_)
             history.append("read-only accessors called before the computation")
         files = []
-        if it % 4 == 3:
+        if it % 4 == 3 and pts:
             # every run (it == 3: a process tensor WITH transforms): one process tensor goes through a file and comes back
             # through import_process_tensor as 'simple' or 'file'
             import tempfile, os
